@@ -769,6 +769,12 @@ def rule_R3(ctx, repo, flow):
     for node in ast.walk(cs):
         if isinstance(node, ast.If) and block_always_raises(node.body) and isinstance(node.test, ast.Compare) \
                 and len(node.test.ops) == 1 and isinstance(node.test.ops[0], ast.NotIn):
+            subj_ = astq.inline_locals(cs, node.test.left)
+            if not (isinstance(subj_, ast.Name) and subj_.id == "strategy"):
+                ctx.violation("R3", "evaluate:strategy", "_check_strategy tests a normalised value (%s) for membership while evaluate dispatches on the raw "
+                              "`strategy`: names the validator admits can reach the dispatch unrecognised and are silently treated as the default branch"
+                              % ast.unparse(subj_), ctx.loc(emod, cs))
+                return
             tup = node.test.comparators[0]
             if isinstance(tup, ast.Name):
                 vals = astq.assigned_values(cs, tup.id)
